@@ -245,6 +245,26 @@ func runKEYINDEX(c *Ctx) {
 				if !ok {
 					continue
 				}
+				if isPathSlice(P, ia.X.Type()) {
+					// an entry of a search path addressed by a computed index (path[i+1] for "the next deeper entry")
+					if _, isC := ia.Index.(*ssa.Const); isC {
+						continue
+					}
+					if bin, isBin := ir.ResolveCell(ia.Index).(*ssa.BinOp); isBin && bin.Op == token.SUB && isLenCall(bin.X) {
+						continue // len(path)-k: CURSORGUARD's business
+					}
+					pos := P.InstrPos(ia)
+					what := fmt.Sprintf("path[%s] in %s", pathDesc(ir.Sym(ia.Index)), ir.FuncName(fn))
+					if ok, why := indexBounded(ia.Index, ia); ok {
+						c.OK(pos, what, why, false)
+					} else if k, ok := lenMinus(ia.Index, map[ssa.Value]bool{}); ok && k >= 1 {
+						c.OK(pos, what, fmt.Sprintf("a counter that starts at a length minus a constant and only goes down: at most len-%d", k), false)
+					} else {
+						c.Violation(fn, pos, fmt.Sprintf("path[%s] not known to be in range", pathDesc(ir.Sym(ia.Index))),
+							"an entry of the search path is addressed by an index that no test on the way compares with the path's length: at the deepest entry (or on an empty path) this panics with index out of range")
+					}
+					continue
+				}
 				_, f, ok := nodeSliceRoot(ia.X)
 				if !ok || (f != "Key" && f != "Value") {
 					continue
@@ -369,4 +389,54 @@ func atMostALength(v ssa.Value, seen map[ssa.Value]bool) bool {
 		}
 	}
 	return false
+}
+
+// lenMinus: v ≤ len(S) - k for some length and the returned k (the largest that can be shown): len(S) itself (0),
+// such a value plus or minus a constant, a φ of such values (a loop counter going down from len(S)-c: the back edge is
+// the φ itself minus a constant and does not lower k).
+func lenMinus(v ssa.Value, seen map[ssa.Value]bool) (int64, bool) {
+	v = ir.ResolveCell(v)
+	switch x := v.(type) {
+	case *ssa.Call:
+		if b, ok := x.Call.Value.(*ssa.Builtin); ok && b.Name() == "len" {
+			return 0, true
+		}
+	case *ssa.BinOp:
+		if k, isK := ir.ConstInt(x.Y); isK {
+			if seen[x.X] {
+				// the loop counter itself: only decrements keep the bound
+				if x.Op == token.SUB && k >= 0 {
+					return 1 << 40, true
+				}
+				return 0, false
+			}
+			base, ok := lenMinus(x.X, seen)
+			if !ok {
+				return 0, false
+			}
+			if x.Op == token.SUB {
+				return base + k, true
+			}
+			if x.Op == token.ADD {
+				return base - k, true
+			}
+		}
+	case *ssa.Phi:
+		if seen[v] {
+			return 1 << 40, true
+		}
+		seen[v] = true
+		best := int64(1 << 40)
+		for _, e := range x.Edges {
+			k, ok := lenMinus(e, seen)
+			if !ok {
+				return 0, false
+			}
+			if k < best {
+				best = k
+			}
+		}
+		return best, len(x.Edges) > 0
+	}
+	return 0, false
 }
